@@ -43,7 +43,7 @@ def _family(args):
     nq = c02.RES_QUICK[d]
     eq = [errs[ns.index(n)] for n in nq]
     pq, sq, oq = c02.orders(nq, eq)
-    return (case, path, dtype, k, {"ns": ns, "err_end": errs, "err_max": [r["err_max"] for r in res], "pair": pair, "slope": slope, "overall": overall,
+    return (case, path, dtype, k, {"ns": ns, "err_end": errs, "err_max": [r["err_max"] for r in res], "verr": [r["verr_end"] for r in res], "pair": pair, "slope": slope, "overall": overall,
                                    "pair_q": pq, "slope_q": sq, "overall_q": oq, "p": p})
 
 
@@ -77,10 +77,20 @@ def main():
             "draws": len(rs),
             "bound": {n: 3.0 * e for n, e in worst.items()},
             "worst_error": worst,
+            "worst_verr": {str(n): max(r["verr"][i] for r in rs) for i, n in enumerate(ns)},
             "min_pairwise": min(min(r["pair"]) for r in rs), "min_slope": min(r["slope"] for r in rs), "min_overall": min(r["overall"] for r in rs),
             "min_pairwise_quick": min(min(r["pair_q"]) for r in rs), "min_slope_quick": min(r["slope_q"] for r in rs), "min_overall_quick": min(r["overall_q"] for r in rs),
             "overall_floor": min(min(r["overall"] for r in rs), min(r["overall_q"] for r in rs)) - 0.25,
         }
+    # pool both precisions (see "rule")
+    for k, v in cal["cases"].items():
+        case, path, dt = k.split(":")
+        o = cal["cases"].get(f"{case}:{path}:{'float64' if dt == 'float32' else 'float32'}")
+        if o:
+            v["bound"] = {n: 3.0 * max(v["worst_error"][n], o["worst_error"][n]) for n in v["worst_error"]}
+            v["vbound"] = {n: 3.0 * max(v["worst_verr"][n], o["worst_verr"][n]) + 1e-300 for n in v["worst_verr"]}
+            v["overall_floor"] = min(v["min_overall"], v["min_overall_quick"], o["min_overall"], o["min_overall_quick"]) - 0.25
+    cal["rule"] = "bound(n) = 3 x worst error over the draws of both precisions of the same case/path; overall_floor = worst overall order over both precisions and both resolution families - 0.25; path B asserts fixed thresholds (>= 1)"
     os.makedirs(os.path.join(ROOT, "calibration"), exist_ok=True)
     with open(os.path.join(ROOT, "calibration", "C02.json"), "w") as f:
         json.dump(cal, f, indent=1)
